@@ -353,6 +353,10 @@ func (f *File) Read(p []byte) (int, error) {
 		return 0, io.EOF
 	}
 	want := len(p)
+	if (f.kind == "pipe" || f.isPipe) && want > 65536 {
+		// a pipe hands over at most its capacity per read, however large the buffer
+		want = 65536
+	}
 	if len(f.plan.Chunks) > 0 {
 		c := f.plan.Chunks[f.ci%len(f.plan.Chunks)]
 		f.ci++
